@@ -693,7 +693,9 @@ func genCaseTree(c *Ctx, mode string) {
 		b := nc.nm.blocks[name]
 		// block-carried sup links (only checkpoint blocks use them; others just store them)
 		var sups []supSpec
-		if rng.Intn(4) == 0 {
+		// (crash cases carry no relayed sup links: what unverified header sup links do to a
+		// restarted node is recorded separately as F10a–c)
+		if rng.Intn(4) == 0 && nc.crashLog == nil {
 			sups = nc.randomSups(name)
 		}
 		nc.deliver(name, sups...)
